@@ -419,7 +419,12 @@ func runC05RT(c *c05rtCase) (out c05Outcome) {
 		out.violation = "setup: " + err.Error()
 		return
 	}
-	defer mp.Close()
+	closedPair := false
+	defer func() {
+		if !closedPair {
+			mp.CloseWithin(30 * time.Second)
+		}
+	}()
 	cli, srv := ecdhKey(c.Seed, "cli"), ecdhKey(c.Seed, "srv")
 	pass := entropy(c.Seed, "pass", 14)
 	auth := entropy(c.Seed, "auth", 64)
@@ -571,8 +576,15 @@ func runC05RT(c *c05rtCase) (out c05Outcome) {
 		plains = append(plains, s.offered...)
 	}
 	mu.Unlock()
-	_ = cc.Close()
-	_ = sc.Close()
+	// bounded: a Close that cannot take a stream mutex held by a stuck retry
+	// loop would otherwise hang the harness itself
+	hung := closeWithin(30*time.Second, []string{"client", "server"}, cc.Close, sc.Close)
+	hung = append(hung, mp.CloseWithin(30*time.Second)...)
+	closedPair = true
+	if len(hung) > 0 && out.violation == "" {
+		out.violation = fmt.Sprintf("Close of the %s connection did not return within 30s after the transfer (%v since start): the connection neither works nor fails visibly",
+			strings.Join(hung, " and "), time.Since(start))
+	}
 	msgs, events := r.Snapshot()
 	nerr := 0
 	for _, e := range events {
